@@ -141,7 +141,7 @@ fn ref_slice(line: &str, col: u64, span: u64) -> Option<&str> {
 }
 pub fn sourceview() -> Report {
     let maxlen = if crate::deep() { 7 } else { 5 };
-    let bound_s = format!("all texts of length <= {maxlen} over {{a, LF, CR, e-acute, U+1F600}}; access orders per text: reverse, forward with the count first, missing line first, late line first, every single line then the count, every adjacent pair late one first then the count; the iterator after each; all (col, span) in 0..=len+1 per line plus extreme values");
+    let bound_s = format!("all texts of length <= {maxlen} over {{a, LF, CR, e-acute, U+1F600}}; access orders per text: reverse, forward with the count first, missing line first, late line first, every single line then the count, every adjacent pair late one first then the count; the iterator after each; a clone taken after the first request and a clone of the fully read view (built by from_string) read backwards, then counted; all (col, span) in 0..=len+1 per line plus extreme values");
     let bound = bound_s.as_str();
     let mut cases = 0u64;
     let alpha = ['a', '\n', '\r', 'é', '😀'];
@@ -163,6 +163,17 @@ pub fn sourceview() -> Report {
             let c = sv.line_count(); if c != want.len() { return r("sourceview", bound, cases, Some(format!("text {t:?} after requests {ord:?}: line_count() = {c}, expected {}", want.len()))); }
             let it: Vec<String> = sv.lines().map(|s| s.to_string()).collect();
             if it != want.iter().map(|s| s.to_string()).collect::<Vec<_>>() { return r("sourceview", bound, cases, Some(format!("text {t:?}: lines() yields {it:?}, expected {want:?}"))); }
+            // a clone taken after some requests (and a view built by from_string) answers like a fresh view, in any order
+            let first = SourceView::from_string(t.clone());
+            if let Some(&i0) = ord.first() { let _ = first.get_line(i0); }
+            for (what, v) in [("clone taken after the first request", first.clone()), ("clone of the fully read view", sv.clone())] {
+                for i in (0..=n).rev() {
+                    let g = match guarded(|| v.get_line(i).map(|s| s.to_string())) { Ok(g) => g, Err(p) => return r("sourceview", bound, cases, Some(format!("{what}: get_line({i}) on {t:?}: {p}"))) };
+                    let w = want.get(i as usize).map(|s| s.to_string());
+                    if g != w { return r("sourceview", bound, cases, Some(format!("text {t:?}, {what} (requests before: {ord:?}): get_line({i}) = {g:?}, expected {w:?}"))); }
+                }
+                let c = v.line_count(); if c != want.len() { return r("sourceview", bound, cases, Some(format!("text {t:?}, {what}: line_count() = {c}, expected {}", want.len()))); }
+            }
         }
         let sv = SourceView::new(t.as_str().into());
         for (li, line) in want.iter().enumerate() { let len16 = line.encode_utf16().count() as u32;
@@ -194,7 +205,7 @@ fn text_at(line: &str, col: u32) -> Option<&str> {
     line[off..].split_whitespace().next().and_then(ident)
 }
 pub fn function_name() -> Report {
-    let bound = "8 minified programs (several functions per line, two lines, non-ASCII / astral characters before and inside identifiers, names that are prefixes of one another), tokens every 1 / 2 / 3 / 5 UTF-16 columns plus every word start, and on word starts only (so that `function NAME` token pairs exist) (and past the end; never inside a surrogate pair), names starting with / consisting of '_' and '$', identifiers continued by a combining mark / non-ASCII digit / U+203F, every start token x 22 candidate names; one 140-token line for the 128-token window";
+    let bound = "10 minified programs (several functions per line, two lines, non-ASCII / astral characters before and inside identifiers, names that are prefixes of one another, a joiner directly after `function`, the same function name declared twice), tokens every 1 / 2 / 3 / 5 UTF-16 columns plus every word start, and on word starts only (so that `function NAME` token pairs exist) (and past the end; never inside a surrogate pair), all tokens named or every 2nd / 3rd / 4th one without a name, names starting with / consisting of '_' and '$' or starting with a joiner, identifiers continued by a combining mark / non-ASCII digit / U+203F, every start token x 33 candidate names; one 140-token line for the 128-token window";
     let mut cases = 0u64;
     let programs: Vec<Vec<&str>> = vec![
         vec!["function fn1(){} var é2=function g(){}", "function fn(){}function fn1 (){}"],
@@ -205,12 +216,14 @@ pub fn function_name() -> Report {
         vec!["function é(){} function fé (){}", "var λ=function ü(){}"],
         vec!["function _(){}function _a(){}function a_(){}", "function $(){} function $1(){} function _0x1f(){}"],
         vec!["function e\u{301}(){} function e(){}", "function k\u{663}(){} function a\u{203f}b(){}"],
+        vec!["function \u{200d}n(){} function n(){}", "function \u{200c}m(){} function m\u{200c}(){}"],
+        vec!["function r(){} function q(){} function r(){} x"],
     ];
-    let names = ["fn1", "fn", "g", "é2", "λx", "$_", "f\u{200d}g", "function", "1x", "", "h", "a", "é", "fé", "ü", "λ", "_", "_a", "a_", "$", "$1", "_0x1f", "e\u{301}", "e", "k\u{663}", "k", "a\u{203f}b"];
+    let names = ["fn1", "fn", "g", "é2", "λx", "$_", "f\u{200d}g", "function", "1x", "", "h", "a", "é", "fé", "ü", "λ", "_", "_a", "a_", "$", "$1", "_0x1f", "e\u{301}", "e", "k\u{663}", "k", "a\u{203f}b", "\u{200d}n", "n", "\u{200c}m", "m\u{200c}", "r", "q"];
     for prog in &programs {
         let text = prog.join("\n");
         let sv = SourceView::new(text.as_str().into());
-        for stride in [1u32, 2, 3, 5, 1000] {
+        for (stride, nameless) in [(1u32, 0usize), (2, 0), (3, 0), (5, 0), (1000, 0), (1000, 2), (1000, 3), (1000, 4), (1, 2), (1, 3)] {
         let mut b = SourceMapBuilder::new(None);
         let mut pos = vec![];
         for (l, line) in prog.iter().enumerate() { let n16 = line.encode_utf16().count() as u32; let mut c = 0; while c <= n16 + 1 { pos.push((l as u32, c)); c += stride; }
@@ -219,7 +232,9 @@ pub fn function_name() -> Report {
         // columns inside a surrogate pair are not positions of any character: excluded (the property places tokens on, before and after declarations)
         pos.retain(|&(l, c)| { let mut col = 0u32; for ch in prog[l as usize].chars() { if ch.len_utf16() == 2 && c == col + 1 { return false; } col += ch.len_utf16() as u32; } true });
         pos.sort(); pos.dedup();
-        for (k, &(l, c)) in pos.iter().enumerate() { b.add(l, c, k as u32, 0, Some("o.js"), Some(&format!("orig{k}")), false); }
+        // `nameless` = m > 0: every m-th token (index m-1, 2m-1, ...) carries no name (a pair found there resolves to nothing; the walk must stop all the same)
+        let tok_name = |k: usize| if nameless > 0 && k % nameless == nameless - 1 { None } else { Some(format!("orig{k}")) };
+        for (k, &(l, c)) in pos.iter().enumerate() { b.add(l, c, k as u32, 0, Some("o.js"), tok_name(k).as_deref(), false); }
         let sm = b.into_sourcemap();
         let texts: Vec<Option<&str>> = pos.iter().map(|&(l, c)| text_at(prog[l as usize], c)).collect();
         for start in 0..pos.len() { for name in names {
@@ -229,7 +244,7 @@ pub fn function_name() -> Report {
             let valid = ident(name).map_or(false, |i| i.len() == name.len());
             let mut want = None;
             if valid { let lo = start.saturating_sub(127);
-                for j in (lo..=start).rev() { if texts[j] == Some(name) && j > lo && j >= 1 && texts[j - 1] == Some("function") { want = Some(format!("orig{j}")); break; } } }
+                for j in (lo..=start).rev() { if texts[j] == Some(name) && j > lo && j >= 1 && texts[j - 1] == Some("function") { want = tok_name(j); break; } } }
             crate::witness(want.is_some() && name != "function");
             if got != want { return r("function_name", bound, cases, Some(format!("program {prog:?}, tokens every {stride} columns: resolving {name:?} from token #{start} at (line,col) {:?} gives {got:?}, expected {want:?}", pos[start]))); }
         } }
